@@ -120,11 +120,11 @@ NOT_APPLICABLE = [
 
 NOTES = ("All claimed checks are exploration-level deterministic simulations (see DESIGN.md; §10 is the build report). One "
          "entry script: /verif/check <ID> --tier quick|thorough; VERIF_SEED selects the seed batch; VERIF_REPO points the checks "
-         "at a scratch copy (self-tests only). Exit 2 = harness error, never reported as success. Five genuine defects were "
-         "repaired in /repo (fix: commits 40a7ea6, 5bbf938, ab3e6dd, f3aaac2, 08553b7; recorded as `fixed` in "
+         "at a scratch copy (self-tests only). Exit 2 = harness error, never reported as success. Six genuine defects were "
+         "repaired in /repo (fix: commits 40a7ea6, 5bbf938, ab3e6dd, f3aaac2, 08553b7, 6cea28f; recorded as `fixed` in "
          "known_findings.json, witnesses pinned under corpus/); one is recorded as a finding (D6, property C07: the check prints "
          "KNOWN-FINDING for its pinned witness and exits 0). Self-tests: check selftest-determinism | selftest-simfs | "
-         "selftest-grammar | selftest-sensitivity (mutants/catalogue.json) | selftest-seeded (129 independent seeded changes "
+         "selftest-grammar | selftest-sensitivity (mutants/catalogue.json) | selftest-seeded (138 independent seeded changes "
          "under seeded/).")
 
 
